@@ -39,13 +39,20 @@ class Side:
         self.kind = mat.kind(self.vals)
         if partner:
             e1, e2, n = G.PARTNERS[shape]
-            self.real = {"e1": e1, "e2": e2, "n": n}
-            self.dims = {e1: "e1", e2: "e2", n: "n"}
-            self.nominal = {}
-        else:
-            self.dims = G.dim_map(shape, role)             # real name -> abstract
-            self.real = {a: r for r, a in self.dims.items() if a in ABS}
-            self.nominal = {r: G.SHAPES[shape]["dims"][r][1] for r, a in self.dims.items() if a not in ABS}
+            self.role = (e1, e2)
+        self.dims = G.dim_map(shape, self.role)             # real name -> abstract
+        self.real = {a: r for r, a in self.dims.items() if a in ABS}
+        self.nominal = {r: G.SHAPES[shape]["dims"][r][1] for r, a in self.dims.items() if a not in ABS}
+        # inherited dimensions (DIMENSION_NAMES along the MRO) the shape's own area formula does not use are read too:
+        # aliases are lengths that start at a constructor dimension's value ("e0": never touched by a behaviour),
+        # dimensions stored as 0 read 0 hot and cold, never-assigned ones cannot be read
+        ex = _extras(shape, self.role, index)
+        ctor = G.ctor_dims(shape, self.role, index)
+        for r, target in ex["alias"].items():
+            self.dims[r] = "e0"
+            self.nominal[r] = ctor[target]
+        self.zero = list(ex["zero"])
+        self.unset = list(ex["unset"])
 
     def describe(self):
         return {"shape": self.shape, "role": list(self.role), "material": self.mat.name, "temps_C": self.temps,
@@ -54,10 +61,18 @@ class Side:
     def make(self, tin, thot):
         m = self.mat.cls()
         name = "c%d" % self.index
-        if self.partner:
-            kw = {self.real[a]: G.VALUES[(self.index, a)][0] for a in ABS}
-            return G.class_of(self.shape)(name, m, Tinput=self.temps[tin - 1], Thot=self.temps[thot - 1], **kw)
         return G.build_component(self.shape, self.role, m, self.temps[tin - 1], self.temps[thot - 1], name, comp_index=self.index)
+
+
+_EXTRAS = {}
+
+
+def _extras(shape, role, index):
+    k = (shape, tuple(role), index)
+    if k not in _EXTRAS:
+        armi_ready()
+        _EXTRAS[k] = G.extra_dims(shape, G.build_component(shape, role, "Custom", 25.0, 25.0, "probe", comp_index=index))
+    return _EXTRAS[k]
 
 
 class Binding:
@@ -232,6 +247,10 @@ class Adapter:
             o["hot"] = {r: self._q(lambda r=r: c.getDimension(r)) for r in s.dims}
             o["cold"] = {r: self._q(lambda r=r: c.getDimension(r, cold=True)) for r in s.dims}
             o["at"] = [{r: self._q(lambda r=r, tc=tc: c.getDimension(r, Tc=tc)) for r in s.dims} for tc in s.temps]
+            o["areaAt"] = [self._q(lambda tc=tc: c.getArea(Tc=tc)) for tc in s.temps]
+            # inherited dimensions stored as 0: getDimension returns a falsy dimension as it is, hot or cold
+            o["zero"] = {r: [self._q(lambda r=r: c.getDimension(r)), self._q(lambda r=r: c.getDimension(r, cold=True))] +
+                         [self._q(lambda r=r, tc=tc: c.getDimension(r, Tc=tc)) for tc in s.temps] for r in s.zero}
             o["link"] = {a: bool(c.dimensionIsLinked(r)) for a, r in s.real.items()}
             # which live component each linked dimension points at (identity), for classifying divergences only
             o["linksTo"] = {a: next((j for j, x in enumerate(w.comp) if x is c.p[r].getLinkedComponent()), -1)
@@ -266,6 +285,13 @@ class Adapter:
             e["cold"] = {r: self._val(so["cold"][a], s, r, src) for r, a in s.dims.items()}
             e["at"] = [{r: self._val(so["at"][t][a], s, r, src) for r, a in s.dims.items()} for t in range(self.b.nt)]
             e["link"] = {a: so["link"][a] for a in s.real}
+            e["zero"] = {r: [0.0] * (2 + self.b.nt) for r in s.zero}
+            e["areaAt"] = []
+            for t in range(self.b.nt):
+                at = so["areaAt"][t]
+                # (a list entry that cannot be a monomial -- lengths following different materials -- is not compared)
+                e["areaAt"].append(g["coldArea"] * evalmono(at["e"], self.b.fac) if at["r"] == "ok" else
+                                   g["areaAt"][t] if at["r"] == "mixed" else at["r"])
             ar = so["area"]["r"]
             if ar == "ok":
                 e["area"] = g["coldArea"] * evalmono(so["area"]["e"], self.b.fac)
@@ -339,6 +365,9 @@ def inventory(rep, nt):
         rep.extra["inventory"] = {
             "shape_classes_2d_covered": covered, "shape_classes_2d_excluded": excluded, "shape_classes_3d_outside_statement": n3d,
             "shape_roles": len(shaperoles),
+            "inherited_dimensions_not_constructor_arguments": {
+                sh: _extras(sh, G.SHAPES[sh]["roles"][0], 1) for sh in covered
+                if any(_extras(sh, G.SHAPES[sh]["roles"][0], 1).values())},
             "materials": {k: sorted(m.name for m, kk in mats if kk == k) for k in ("solid", "inert", "fluid", "void", "custom")},
             "materials_skipped": skipped,
             "materials_without_declared_range_use_default_C": {"solids": list(G.DEFAULT_RANGE_C), "names": defaults},
@@ -741,7 +770,10 @@ def run(rep, tier, seed):
         "component of another material only volume = area*height and mass = density*volume are asserted ('mixed')",
         "links: component1.e2 <- component2.e1 and component2.e2 <- component1.e2 (chains, retainLink forwarding), never cyclic",
         "tolerance rtol=1e-9: every observable is a handful of double multiplications/divisions of the measured factors",
-        "zero-valued dimensions, DerivedShape / NullComponent / abstract Component classes and 3-D shapes are outside (coverage.inventory)",
+        "every dimension name along a shape class' MRO is read hot / cold / at each table temperature: constructor dimensions, inherited "
+        "aliases (Square.lengthOuter/lengthInner: lengths) and inherited dimensions stored as 0 (read 0); getArea(Tc=t) is compared for "
+        "every table temperature t",
+        "zero-valued constructor dimensions, DerivedShape / NullComponent / abstract Component classes and 3-D shapes are outside (coverage.inventory)",
     )
 
 
@@ -919,7 +951,21 @@ def selftest():
     from armi.reactor import components as comps
 
     P = patched
+    def unshaped_area_ignores_tc(self, cold=False, Tc=None):
+        if cold:
+            return self.p.area
+        return self.getThermalExpansionFactor() ** 2 * self.p.area
+
+    def hexagon_area_ignores_tc(self, cold=False, Tc=None):
+        op = self.getDimension("op", cold=cold)
+        ip = self.getDimension("ip", cold=cold)
+        return math.sqrt(3.0) / 2.0 * (op ** 2 - ip ** 2) * self.getDimension("mult")
+
     mutants = [
+        ("round 2 seed 3: Square drops the inherited length dims from THERMAL_EXPANSION_DIMS",
+         lambda: P(basicShapes.Square, "THERMAL_EXPANSION_DIMS", {"widthOuter", "widthInner"})),
+        ("round 2 seed 5: UnshapedComponent.getComponentArea ignores Tc", lambda: P(comps.UnshapedComponent, "getComponentArea", unshaped_area_ignores_tc)),
+        ("Hexagon.getComponentArea ignores Tc", lambda: P(basicShapes.Hexagon, "getComponentArea", hexagon_area_ignores_tc)),
         ("seed 2: setTemperature(0.0) silently ignored", lambda: P(C, "setTemperature", set_temperature_ignores_zero)),
         ("seed 4: no density change for steps below 0.1 degC", lambda: P(M, "getThermalExpansionDensityReduction", reduction_deadband)),
         ("seed 5: __copy__ is a plain deepcopy (links frozen)", lambda: P(C, "__copy__", copy_plain_deepcopy)),
